@@ -287,6 +287,20 @@ func (m *coreMon) check(op string, res string, cur *coreSnap) {
 		// ---- fork effects (C03, core part): an op that bumped the revision
 		if len(r.Revs) > len(pr.Revs) {
 			nh := r.Revs[len(r.Revs)-1][1] // new revision start = h'+1
+			// "a fork that names a wrong revision is refused": the revision a height belongs to is the
+			// NEWEST revision that starts at or below it (a later, deeper fork re-started those heights)
+			if f[0] == "fraud" && named && len(pr.Revs) > 0 {
+				fh, want := atou(kv["h"]), uint64(0)
+				for i := len(pr.Revs) - 1; i >= 0; i-- {
+					if pr.Revs[i][1] <= fh {
+						want = pr.Revs[i][0]
+						break
+					}
+				}
+				if atou(kv["rev"]) != want {
+					m.violate("C03/refused/fork-accepted-with-wrong-revision", fmt.Sprintf("r%d: fraud proposal for height %d naming revision %s was accepted, that height belongs to revision %d (revisions %v)", ri, fh, kv["rev"], want, pr.Revs))
+				}
+			}
 			if r.Revs[len(r.Revs)-1][0] != pr.Revs[len(pr.Revs)-1][0]+1 || len(r.Revs) != len(pr.Revs)+1 {
 				m.violate("C03/revision/not-bumped-by-one", fmt.Sprintf("r%d %v -> %v", ri, pr.Revs, r.Revs))
 			}
